@@ -599,7 +599,7 @@ func RunScenario(sc Scenario) Result {
 		if sc.HjLate {
 			go func() {
 				defer close(lateDone)
-				time.Sleep(20 * time.Millisecond) // let hijackConnHandler finish (releaseCtx)
+				time.Sleep(60 * time.Millisecond) // let hijackConnHandler finish (releaseCtx)
 				p, e := readSome(-1, &res.Hijack.Late)
 				hmu.Lock()
 				res.Hijack.LatePanic = p
@@ -772,6 +772,14 @@ func RunScenario(sc Scenario) Result {
 		select {
 		case <-hjDone:
 		case <-time.After(2 * time.Second):
+		}
+		// is the connection closed once the hijack handler has returned?
+		if sc.Cfg.KeepHijacked {
+			time.Sleep(15 * time.Millisecond)
+			_, cl, _ := conn.Snapshot()
+			res.Hijack.ClosedAfter = cl
+		} else {
+			res.Hijack.ClosedAfter = conn.Wait(2*time.Second, func() bool { return conn.Closed })
 		}
 		select {
 		case <-lateDone:
